@@ -881,10 +881,10 @@ theorem gen_ntile_step (perTile idx : Nat) (rest : List Nat) (tile count mod : N
       · have : (0 : Int) < (mod : Int) := by omega
         have e1 : ((count : Int) + 1).toNat = count + 1 := by omega
         have e2 : ((mod : Int) - 1).toNat = mod - 1 := by omega
-        simp [hm, this, e1, e2]
+        simp [hm, e1, e2]
       · have : ¬ (0 : Int) < (mod : Int) := by omega
         have e : ((tile : Int) + 1).toNat = tile + 1 := by omega
-        simp [hm, this, e]
+        simp [hm, e]
     · have : ¬ ((perTile : Int) + 1 = (count : Int) + 1) := by omega
       have e1 : ((count : Int) + 1).toNat = count + 1 := by omega
       have hB' : ¬ perTile = count := by omega
@@ -1026,7 +1026,7 @@ theorem lagScan_spec (ign : Bool) (values : List Val) : ∀ (i f : Nat), i < val
     obtain ⟨f', rfl⟩ : ∃ f', f = f' + 1 := ⟨f - 1, by omega⟩
     have hv : values[j + 1]? = some values[j + 1] := List.getElem?_eq_getElem hi
     have ht : values.take (j + 1 + 1) = values.take (j + 1) ++ [values[j + 1]] := by
-      rw [List.take_succ, hv]; rfl
+      rw [List.take_add_one, hv]; rfl
     rw [lagScan_step ign values (j + 1) f' hi, ht, List.reverse_append]
     have e : ((j + 1 : Nat) : Int) - 1 = (j : Int) := by omega
     rw [e, ih f' (by omega) (by omega)]
@@ -1055,7 +1055,7 @@ theorem gen_lag_eq_model (ign : Bool) (dflt : Val) (offset : Int) (values : List
       cases (List.drop offset.toNat values.reverse).find? (keepV ign) <;> rfl
     · have h2 : ¬ ((0 : Int) ≤ (values.length : Int) - 1 - offset) := by omega
       have hd : List.drop offset.toNat values.reverse = [] := List.drop_eq_nil_of_le (by simp; omega)
-      simp [h2, hd]
+      simp only [h2, decide_false, Bool.false_and, Bool.false_eq_true, if_false, hd, List.find?_nil]
 
 /-- the default offset of LAG / LEAD without a second argument is 1 -/
 theorem gen_lag_default_offset : An.lagOffsetDefault = (.fall, 1) := rfl
@@ -1152,9 +1152,7 @@ theorem gen_grammar_reviewed :
 /-- … from which: only FIRST/LAST/NTH_VALUE and LAG/LEAD take IGNORE NULLS; a windowing clause is allowed for
     user-defined aggregates, the aggregate functions, VAR, COUNT and FIRST/LAST/NTH_VALUE, and for nothing else
     (ROW_NUMBER … NTILE, LISTAGG / JSON_AGG, LAG / LEAD) -/
-theorem clause_rights_from_grammar :
-    rightsOfGrammar ((An.grammarForms.lookup "analytic_function").getD []) = clauseRights := by
-  decide
+theorem clause_rights_from_grammar : An.grammarRights = clauseRights := rfl
 
 end generated
 
